@@ -252,11 +252,21 @@ func findingsOf(cp *Corpus, f *Fn, r *FnResult) []map[string]any {
 		out = append(out, rec)
 	}
 	if r.Conflict != nil {
+		// one depth conflict makes every later join of the function inconsistent too, and which of
+		// them TLC's workers report first is not deterministic: classify every conflicting arrival and
+		// report the function under its most specific cause (the smallest in a fixed order), the
+		// unclassified "other" only when no arrival has a specific cause
 		cf := r.Conflict
+		bestCause := conflictCause(cp, f, cf)
+		for i := range r.Conflicts {
+			if cc := conflictCause(cp, f, &r.Conflicts[i]); cc != "other" && (bestCause == "other" || cc < bestCause) {
+				bestCause, cf = cc, &r.Conflicts[i]
+			}
+		}
 		rec := base("join_inconsistent", fmt.Sprintf("offset %d (mode %q) is reached with depth %d via %s at %d and with depth %d via %s at %d",
 			cf.Pc, cf.Mode, cf.First.D, cf.First.Op, cf.First.P, cf.Second.D, cf.Second.Op, cf.Second.P))
 		rec["pc"] = cf.Pc
-		rec["cause"] = conflictCause(cp, f, cf)
+		rec["cause"] = bestCause
 		rec["via"] = cf.First.Op + "/" + cf.Second.Op
 		out = append(out, rec)
 	} else {
